@@ -69,7 +69,8 @@ type scen struct {
 	Triggers []string      `json:"triggers,omitempty"` // listed findings this scenario exercises
 	ErrCodes [][]*int      `json:"-"`                  // per governance txn: error code per entry (nil = acceptable)
 	Gov      []govTxn      `json:"gov,omitempty"`
-	Late     time.Duration `json:"late,omitempty"` // second half of the executions starts this much later (clock scenario)
+	Late     time.Duration `json:"late,omitempty"`   // second half of the executions starts this much later (clock scenario)
+	Reward   *rewardCase   `json:"reward,omitempty"` // stake-pool rewards stream (rewards.go) instead of blocks
 }
 
 type govTxn struct {
@@ -507,6 +508,8 @@ func main() {
 		"executed 6 times (thorough: 16) in fresh processes: GOMAXPROCS 1 and 16, warm and cold state cache; one scenario is executed before and after a wall-clock instant; " +
 		"fan-in scenarios: a new_allocation_request naming 2-6 existing providers of another type (authorizers only / miners and sharders only / both), the request and one probe per failing item " +
 		"executed 300 times (thorough: 3000) on one state in one process at GOMAXPROCS 16 with a cold cache, and once by a warm node; " +
+		"stake-pool rewards stream: a provider with 2-12 delegates (equal or different stakes), a reward with a remainder, N rewarded delegates below/equal/above the delegate count, " +
+		"applied 16 times (thorough: 64) to fresh copies of one committed state through the real StakePool.DistributeRewardsRandN, comparing state root, rewards and events; " +
 		"non-trivial = at least one successful state-changing transaction and one failed one; distinct by scenario"
 	self, err := os.Executable()
 	must(err)
@@ -693,6 +696,38 @@ func main() {
 			}
 		}
 	}
+	handleReward := func(rc rewardCase, name string) {
+		vs, first := runReward(rc)
+		s := scen{Reward: &rc, Triggers: []string{"reward"}}
+		s.Name = name
+		var ds []string
+		var ks []string
+		for k := range vs {
+			ks = append(ks, k)
+			ds = append(ds, fmt.Sprint(digest(k)))
+		}
+		sort.Strings(ks)
+		sort.Strings(ds)
+		mu.Lock()
+		defer mu.Unlock()
+		rep.Count("scenario-reward")
+		rep.Count(fmt.Sprintf("reward-n-%s-delegates", map[bool]string{true: "ge", false: "lt"}[rc.N >= len(rc.Balances)]))
+		key, _ := json.Marshal(rc)
+		rep.Case(string(key), strings.Contains(first, "event"), s)
+		cf.Add("(DcRuns " + vh.List(ds) + ")")
+		rep.CaseInputs = append(rep.CaseInputs, s)
+		if len(vs) > 1 {
+			sig := "C06:stake-pool-reward-depends-on-map-order"
+			dup := false
+			for _, old := range rep.Violations {
+				dup = dup || old.Signature == sig
+			}
+			if !dup {
+				rep.Violate(sig, fmt.Sprintf("%s: DistributeRewardsRandN of %d to a provider with %d delegates (N=%d, seed %d) on %d fresh copies of one state gives %d different results, e.g. %q (%d times) and %q (%d times)",
+					name, rc.Value, len(rc.Balances), rc.N, rc.Seed, rc.Reps, len(vs), short(ks[0]), vs[ks[0]], short(ks[1]), vs[ks[1]]), s)
+			}
+		}
+	}
 	finish := func() {
 		files, err := cf.Write(o.Out, "C06")
 		must(err)
@@ -705,7 +740,9 @@ func main() {
 		if hasTrig(rs, "clock") {
 			rs.BaseTime = time.Now().Unix() + 6
 		}
-		if hasTrig(rs, "fan-in") {
+		if rs.Reward != nil {
+			handleReward(*rs.Reward, rs.Name)
+		} else if hasTrig(rs, "fan-in") {
 			handleFan(rs)
 		} else {
 			handle(rs)
@@ -741,6 +778,10 @@ func main() {
 			rep.Violate(v.sig, v.desc, s)
 		}
 	}()
+	rrnd := vh.NewRand(o.Seed ^ 0x4e3a)
+	for i := 0; i < o.N(60, 1000); i++ {
+		handleReward(genReward(rrnd, o.N(16, 64)), fmt.Sprintf("r%d", i))
+	}
 	n := o.N(16, 120)
 	for i := 0; i < n; i++ {
 		kind := 0
